@@ -378,7 +378,8 @@ def suite_small(rng, tier, shard, nshards):
 # tier) ALL annotations with <= 3 intervals on a 5-point lattice x all (t_min, t_max) on a 7-point lattice incl. None
 
 GEN_FUNCTIONS = ("adjust_intervals", "adjust_events", "intervals_to_boundaries", "boundaries_to_intervals",
-                 "sort_labeled_intervals", "intervals_to_durations", "validate_intervals")
+                 "sort_labeled_intervals", "intervals_to_durations", "validate_intervals", "interpolate_intervals",
+                 "intervals_to_samples", "merge_labeled_intervals")
 GEN_SOURCES = {"adjust_intervals": "adjust_intervals", "adjust_events": "adjust_events", "boundaries": "boundaries",
                "small": "small", "merge_labeled_intervals": "merge_labeled_intervals"}
 
@@ -395,7 +396,8 @@ def as_gen(c):
 
 
 def suite_gen_utilint(rng, tier, shard, nshards):
-    for name in ("adjust_intervals", "adjust_events", "boundaries", "small", "merge_labeled_intervals"):
+    for name in ("adjust_intervals", "adjust_events", "boundaries", "small", "merge_labeled_intervals",
+                 "interpolate_intervals", "intervals_to_samples"):
         for c in SUITES[name](rng, "quick", shard, nshards):
             if c.op.startswith("util.") and c.op[5:] in GEN_FUNCTIONS:
                 yield as_gen(c)
@@ -432,6 +434,41 @@ def suite_gen_utilint(rng, tier, shard, nshards):
                                       np.array([F(x) for x in ev]), list(labs) if wl else None, fa, fb, "__"),
                                   tol=0.0, tag="small-scope", info={"events": [F(x) for x in ev], "labels": list(labs),
                                                                     "t_min": fa, "t_max": fb}, nontrivial=bool(ev)))
+    # interpolate / samples / merge on a small scope: every annotation with <= 2 intervals on the 5-point lattice against the
+    # grid of all lattice points and midpoints (one beyond each end), unsorted grids, zero / negative sample sizes
+    grid = [Fr(k, 2) for k in range(0, 14)]
+    anns = list(enum_annotations(pts, 2))
+    for ivs in anns:
+        idx += 1
+        if idx % nshards != shard:
+            continue
+        labs = [LABS[k % 3] for k in range(len(ivs))]
+        yield as_gen(interp_case(ivs, labs, grid, None if idx % 2 else "F", "small-scope"))
+        yield as_gen(interp_case(ivs, labs, list(reversed(grid[:3])), None, "small-scope-unsorted"))
+        for size in (Fr(1, 2), Fr(1), Fr(2), Fr(0), Fr(-1)):
+            yield as_gen(samples_case(ivs, labs, Fr(idx % 3, 4), size, None if idx % 2 else "F", "small-scope"))
+    yield as_gen(interp_case([], [], grid[:4], "F", "empty"))
+    yield as_gen(samples_case([], [], Fr(0), Fr(1), None, "empty"))
+    yield as_gen(samples_case([(Fr(0), Fr(0))], ["a"], Fr(0), Fr(0), None, "zero-over-zero"))
+    for x in anns:
+        for y in anns:
+            idx += 1
+            if idx % nshards != shard:
+                continue
+            yield as_gen(merge_case(x, [LABS[k % 3] for k in range(len(x))], y, [LABS[k % 2].upper() for k in range(len(y))],
+                                    "small-scope"))
+    # index_labels: (indices, {index: label}) with and without case folding; case twins, duplicates, empty list
+    alphabet = ["a", "A", "b", "B", "ab", "Ab", "", "c1", "C1", "Z", "z~"]
+    for k in range(40):
+        n = rng.randint(0, 8)
+        labs = [rng.choice(alphabet) for _ in range(n)]
+        for cs in (False, True):
+            yield Case("gen.utilint", ["index_labels", list(labs), cs],
+                       lambda labs=labs, cs=cs: (lambda r: [r[0], [[i, l] for i, l in sorted(r[1].items())]])(
+                           mir_eval.util.index_labels(list(labs), case_sensitive=cs)),
+                       tol=0.0, tag="index_labels:case_sensitive=%s" % cs,
+                       info={"op": "gen.utilint", "fn": "index_labels", "labels": list(labs), "case_sensitive": cs},
+                       nontrivial=n > 0)
     # the decimal places of intervals_to_boundaries (dyadic values: exact in binary64, not ties)
     for q in (0, 1, 2, 3, 5, 7):
         for _ in range(6):
@@ -1027,7 +1064,9 @@ def classify(suite, d):
         # a generated definition disagreeing with the function it was generated from: tried as an input of that function's
         # own statement-level oracle
         src = {"adjust_intervals": "adjust_intervals", "adjust_events": "adjust_events",
-               "merge_labeled_intervals": "merge_labeled_intervals", "boundaries_to_intervals": "boundaries"}.get(i.get("fn"))
+               "merge_labeled_intervals": "merge_labeled_intervals", "boundaries_to_intervals": "boundaries",
+               "interpolate_intervals": "interpolate_intervals",
+               "intervals_to_samples": "intervals_to_samples"}.get(i.get("fn"))
         return classify(src, d) if src else None
     if suite == "adjust_intervals":
         ivs = [tuple(r) for r in i["intervals"]]
